@@ -145,7 +145,8 @@ func c10Inheritance(c *Ctx) {
 	childVals := []string{"", "0", "1", "2"}
 	c1 := childVals[c.Free("child1.wheelchair_boarding", 4)]
 	c2 := childVals[c.Free("child2.wheelchair_boarding", 4)]
-	c2HasParent := c.Free("child2.has_parent", 2) == 0
+	c2Parent := c.Free("child2.parent", 3) // 0 the station, 1 none, 2 child1 (a platform: NOT a station)
+	c2HasParent := c2Parent == 0
 	colAbsent := c.Free("wheelchair_boarding_column_absent", 2) == 1
 	parentFirst := c.Free("parent_row_first", 2) == 0
 	// rows of the base: S1 (station), S2 (child of S1), S3
@@ -164,6 +165,11 @@ func c10Inheritance(c *Ctx) {
 	} else {
 		st.set(c2r, "parent_station", "")
 	}
+	if c2Parent == 2 {
+		c1id, _ := st.get(c1r, "stop_id")
+		st.set(c2r, "parent_station", c1id)
+		st.set(c2r, "location_type", "4") // a boarding area whose parent is a platform
+	}
 	if !parentFirst {
 		st.Rows[0], st.Rows[1] = st.Rows[1], st.Rows[0]
 		// stop ids are referenced from other tables by value, row order is free
@@ -171,7 +177,7 @@ func c10Inheritance(c *Ctx) {
 	if colAbsent {
 		st.dropCol("wheelchair_boarding")
 	}
-	applied := []string{fmt.Sprintf("parent{type=%q wb=%q} child1.wb=%q child2.wb=%q child2HasParent=%v colAbsent=%v parentFirst=%v", parentType, parentWB, c1, c2, c2HasParent, colAbsent, parentFirst)}
+	applied := []string{fmt.Sprintf("parent{type=%q wb=%q} child1.wb=%q child2.wb=%q child2Parent=%d colAbsent=%v parentFirst=%v", parentType, parentWB, c1, c2, c2Parent, colAbsent, parentFirst)}
 	if inherit && parentType == "1" && (c1 == "" || c1 == "0") {
 		c.Witness("inheritance_applies")
 	}
@@ -182,7 +188,7 @@ func init() {
 	register(&Check{
 		ID:    "C10",
 		Level: "model_checking",
-		Rule: "base feed x 16 default-bearing optional columns x 6 spellings (as written / column omitted / blank everywhere / blank first row / blank last row / explicit default), one-sided arrival or departure per stop_times row, either time column omitted, inheritance option; k deviations at a time (quick 2, thorough 4); plus the full inheritance product (option x parent type x parent value x two children's values x child-has-parent x column absent x row order = 4 096); " +
+		Rule: "base feed x 16 default-bearing optional columns x 6 spellings (as written / column omitted / blank everywhere / blank first row / blank last row / explicit default), one-sided arrival or departure per stop_times row, either time column omitted, inheritance option; k deviations at a time (quick 2, thorough 4); plus the full inheritance product (option x parent type x parent value x two children's values x second child's parent {station, none, the first child (three levels)} x column absent x row order = 6 144); " +
 			"non-trivial = distinct feeds with at least one non-explicit spelling; oracle = reference interpretation with the GTFS reference defaults",
 		Assumptions: []string{"defaults are those of the GTFS schedule reference: route_color FFFFFF, route_text_color 000000, pickup/drop_off 0, continuous_* 1, timepoint 1, transfer_type 0, exact_times 0, wheelchair/bikes 0, location_type 0"},
 		Scenarios: func(tier string) []*Scenario {
